@@ -33,4 +33,16 @@ CHECKS["C16"] = {
             "is exploration of sampled schedules plus the regenerated site inventory, not a theorem (listed under coverage.partial).",
     "technique": "Coq proof over source-regenerated model (buffer) + differential execution + schedule exploration (transparency)",
 }
+CHECKS["C01"] = {
+    "text": "Machine-checked invariant (Coq) over MuModel, the step-per-atomic-site model of mu.c whose CAS values, guards, masks and "
+            "lock_type tables are regenerated from /repo on every run: for any number of threads (< 2^24), any programs of "
+            "lock/rlock/trylock/rtrylock/unlock and any schedule, the lock field of the word equals the set of holders, hence at most "
+            "one writer and never a writer with a reader (C01_word_agrees, C01_exclusion).  The control skeleton is replayed in "
+            "lock-step against traces of the real mu.c (values read/written, queue contents) on every run; a shadow-occupancy oracle "
+            "runs over thousands of deterministic schedules.",
+    "design_ref": "DESIGN.md section 4, C01",
+    "note": "Trusted: Coq kernel, site/constant extractor, hand-written control skeleton (validated by sampled lock-step replay, not "
+            "proved), the vrt runtime's futex model. Wait re-acquisition paths: oracle only (see coverage.partial).",
+    "technique": "Coq inductive invariant over source-regenerated transition system + lock-step trace inclusion",
+}
 NOT_APPLICABLE = {}
